@@ -126,7 +126,11 @@ pub fn run(ctx: &Ctx) -> i32 {
                     if emitted != written { a.col.add(format!("C14/MT{}/retagged:{written}->{emitted}", base.mt), i as u64, || format!("written :{written}:, emitted :{emitted}:"), case); }
                     else if !allowed { a.col.add(format!("C14/MT{}/foreign-letter-accepted@{}:{}", base.mt, num, if m1::kind(&written).is_some() { "letter-of-another-family" } else { "unused-letter" }), i as u64, || format!(":{written}: is not allowed at this position of MT{}", base.mt), case); }
                 }
-                Ok(Err(_)) => { a.buckets.insert(format!("{}:{}:{}:rejected", base.mt, o.tag, if allowed { "allowed" } else { "foreign" })); }
+                Ok(Err(e)) => {
+                    a.buckets.insert(format!("{}:{}:{}:rejected", base.mt, o.tag, if allowed { "allowed" } else { "foreign" }));
+                    // an option the layout allows, written with a typical content of that option, must be parsed as that option
+                    if allowed && m1::kind(&written).is_some() { a.col.add(format!("C14/MT{}/allowed-option-rejected:{written}", base.mt), i as u64, || format!(":{written}: is an option of this position but the message is rejected: {e}"), case); }
+                }
                 Err(_) => {}
             }
         }, else => {});
